@@ -430,11 +430,31 @@ def g_rules(p: Project, rep: Report):
     wc = _fn(p, "write_config")
     wcfg = CFG(wc)
     opens = wcfg.nodes_calling(lambda c: (dotted(c.func) or "").split(".")[-1] in ("open", "write", "mk_server_cfg", "mkdir"))
-    r = wcfg.reachable(wcfg.entry.id, edge_filter=assume({"args['dryrun']": True}))
-    bad = [n for n in opens if n.id in r]
-    rep.check("G-R4", "write_config:nothing-on-dryrun", bool(opens) and not bad, "on a dry run write_config still reaches " + ", ".join(sorted({text(c.func) for n in bad for c in n.calls()})) if bad else "", gloc(p, wc))
-    r2 = wcfg.reachable(wcfg.entry.id, edge_filter=assume({"args['dryrun']": False}))
-    rep.check("G-R4", "write_config:writes-otherwise", all(n.id in r2 for n in opens), "" if all(n.id in r2 for n in opens) else "write_config never writes", gloc(p, wc))
+    # decided on the enumerated paths (a flag local such as `is_dryrun = args["dryrun"]` is expanded): every path that
+    # reaches one of the effects has established that this is not a dry run
+    from . import paths as _PTW
+    from .match import Expander as _ExW
+
+    wex = _ExW(wc)
+    wpl = _PTW.enumerate_paths(wc, None, wex)
+    wpc = wpl.cfg
+    popens = wpc.nodes_calling(lambda c: (dotted(c.func) or "").split(".")[-1] in ("open", "write", "mk_server_cfg", "mkdir"))
+    argsname = params_of(wc)[0]
+    not_dry = _PTW.Cond("not", [_PTW.cond_of(ast.parse(f"{argsname}['dryrun']", mode="eval").body, wex.x)])
+    bad = []
+    reached_when_not_dry = set()
+    for n in popens:
+        for q in wpl:
+            cb = q.conds_before(n.id)
+            if cb is None:
+                continue
+            if _PTW.implies(cb, not_dry) is not True:
+                bad.append(n)
+            else:
+                reached_when_not_dry.add(n.id)
+    rep.check("G-R4", "write_config:nothing-on-dryrun", bool(popens) and not bad, "on a dry run write_config still reaches " + ", ".join(sorted({text(c.func) for n in bad for c in n.calls()})) if bad else "", gloc(p, wc))
+    wrote = all(n.id in reached_when_not_dry for n in popens)
+    rep.check("G-R4", "write_config:writes-otherwise", wrote, "" if wrote else "write_config never writes", gloc(p, wc))
     # the user file is re-read BEFORE it is opened for writing: open(..., "w") truncates it, so a reload that comes
     # after (inside the `with`, or later) reads an empty file and every other section of the file is lost
     readers = {"USERCFG.read"}
@@ -451,17 +471,47 @@ def g_rules(p: Project, rep: Report):
         rep.check("G-R4", "write_config:reloads-before-truncating", not late, f"{text(late[0].calls()[0].func) if late and late[0].calls() else 'the reload'} runs after the user file has been opened for writing (mode 'w' truncates it): the reload sees an empty file, so every other server's section, and the stored default CLIENTUID, are gone after --write" if late else "", gloc(p, late[0].stmt) if late else gloc(p, wc))
     else:
         rep.note("G-R4 undecided: reload / truncating open of the user file not both found in write_config")
-    mcfg = CFG(mk)
-    gen = [n for n in mcfg.nodes if isinstance(n.stmt, ast.Assign) and text(n.stmt.targets[0]).replace('"', "'") == "defaults['clientuid']"]
-    tests = [n for n in mcfg.nodes if n.kind == "test" and text(n.stmt.test).replace('"', "'") == "'clientuid' not in defaults"]
-    ok = bool(gen) and bool(tests) and all(g.stmt in tests[0].stmt.body or any(g.stmt is x for x in ast.walk(ast.Module(body=tests[0].stmt.body, type_ignores=[]))) for g in gen)
-    rep.check("G-R4", "mk_server_cfg:clientuid-only-when-absent", ok, "a new default CLIENTUID is generated although the user file already has one: the id changes on every --write" if not ok else "", gloc(p, mk))
-    reloads = mcfg.nodes_calling(lambda c: text(c.func) == "USERCFG.read")
-    ok = bool(reloads) and bool(tests) and all(mcfg.dominated_by(t.id, [x.id for x in reloads]) for t in tests)
-    rep.check("G-R4", "mk_server_cfg:reloads-user-file-first", ok, "" if ok else "the user file is not reloaded before deciding whether a CLIENTUID exists", gloc(p, mk))
-    dd = [s for s in own_statements(mk) if isinstance(s, ast.Assign) and text(s.targets[0]) == "defaults"]
-    ok = bool(dd) and all(text(s.value) == "USERCFG[USERCFG.default_section]" for s in dd)
-    rep.check("G-R4", "mk_server_cfg:clientuid-in-default-section", ok, "" if ok else "the generated CLIENTUID is not kept in the default section", gloc(p, mk))
+    # decided on the enumerated paths of the flattened mk_server_cfg (the steps may live in private helpers, be
+    # guard clauses or nested ifs): where the default CLIENTUID is stored, `'clientuid' in <section>` is known to
+    # be false, the user file has been re-read before, and <section> is USERCFG's default section
+    from . import paths as _PTM
+    from .match import Expander as _ExM
+
+    mex = _ExM(mk)
+    try:
+        mpl = _PTM.enumerate_paths(mk, None, mex, resolve=False)
+    except AnalysisError as e:
+        mpl = None
+        rep.note(f"G-R4 undecided: {e}")
+    if mpl is not None:
+        mpc = mpl.cfg
+        gens = [n for n in mpc.nodes if isinstance(n.stmt, ast.Assign) and n.kind not in ("join", "handlers", "test") and len(n.stmt.targets) == 1 and isinstance(n.stmt.targets[0], ast.Subscript) and isinstance(n.stmt.targets[0].slice, ast.Constant) and n.stmt.targets[0].slice.value == "clientuid" and isinstance(n.stmt.targets[0].value, ast.Name)]
+        if not gens:
+            rep.note("G-R4 undecided: no store of a default CLIENTUID found in mk_server_cfg")
+        only_absent = reload_first = in_default = True
+        seen = 0
+        for g in gens:
+            holder = g.stmt.targets[0].value.id
+            absent = _PTM.Cond("not", [_PTM.cond_of(ast.parse(f"'clientuid' in {holder}", mode="eval").body)])
+            for q in mpl:
+                i = q.index_of(g.id)
+                if i is None:
+                    continue
+                seen += 1
+                if _PTM.implies(q.conds_before(g.id) or [], absent) is not True:
+                    only_absent = False
+                reads_before = [j for j in range(i) if mpc.nodes[q.nodes[j]].stmt is not None and mpc.nodes[q.nodes[j]].kind not in ("join", "handlers") and any(text(c.func) == "USERCFG.read" for c in mpc.nodes[q.nodes[j]].calls())]
+                # ... and before the membership test itself
+                test_pos = [j for j in range(i) if mpc.nodes[q.nodes[j]].kind == "test" and "clientuid" in text(mpc.nodes[q.nodes[j]].stmt.test)]
+                if not reads_before or (test_pos and min(reads_before) > min(test_pos)):
+                    reload_first = False
+                hv = _PTM.value_on_path(q, mpc, ast.Name(id=holder, ctx=ast.Load()), upto=i)
+                if text(hv) != "USERCFG[USERCFG.default_section]":
+                    in_default = False
+        if seen:
+            rep.check("G-R4", "mk_server_cfg:clientuid-only-when-absent", only_absent, "a new default CLIENTUID is generated although the user file already has one: the id changes on every --write" if not only_absent else "", gloc(p, mk))
+            rep.check("G-R4", "mk_server_cfg:reloads-user-file-first", reload_first, "" if reload_first else "the user file is not reloaded before deciding whether a CLIENTUID exists", gloc(p, mk))
+            rep.check("G-R4", "mk_server_cfg:clientuid-in-default-section", in_default, "" if in_default else "the generated CLIENTUID is not kept in the default section", gloc(p, mk))
 
     rep.rule("G-R5", "writer and reader of the user file agree on '%': arg2config doubles every '%' exactly when the user-file parser interpolates (the default); with interpolation switched off (constructor keyword, or set in the parser class's __init__) nothing may be doubled - a mismatch either way makes a persisted value containing '%' (legal in URLs) raise on --write or come back changed ('%%20')")
     rets = [r for r in own_nodes(a2c) if isinstance(r, ast.Return) and r.value is not None]
@@ -567,6 +617,9 @@ def _arg_keys(it, binds, defs, p: Project, depth=3):
         if isinstance(it.slice, ast.Name):
             for t, i in binds:
                 if isinstance(t, ast.Name) and t.id == it.slice.id:
+                    # a local bound once to the table of option names stands for the table
+                    if isinstance(i, ast.Name) and len(defs.get(i.id, [])) == 1 and defs[i.id][0].kind == "assign" and isinstance(defs[i.id][0].value, ast.AST):
+                        i = defs[i.id][0].value
                     ks = _const_iter(i, p)
                     if ks is not None:
                         return ks, t.id
@@ -711,8 +764,33 @@ def j_rules(p: Project, rep: Report):
         # the client that sends the statement request takes bankid / brokerid from args when it is built
         senders = {text(c.func.value) for c in own_nodes(fn) if isinstance(c, ast.Call) and isinstance(c.func, ast.Attribute) and c.func.attr == "request_statements"}
         reads += [n for n in fcfg.nodes if isinstance(n.stmt, (ast.Assign, ast.AnnAssign)) and n.kind in ("assign", "annassign") and isinstance(n.stmt.value, ast.Call) and text(n.stmt.value.func) == "init_client" and text(n.stmt.targets[0] if isinstance(n.stmt, ast.Assign) else n.stmt.target) in senders]
-        r_all = fcfg.reachable(fcfg.entry.id, edge_filter=assume({"args['all']": True}))
-        ok = bool(merges) and all(fcfg.dominated_by(n.id, [m_.id for m_ in merges], edge_filter=assume({"args['all']": True})) for n in reads if n.id in r_all and not any(isinstance(x, ast.Subscript) and text(x.slice).strip("'\"") in ("all",) for e in n.exprs() for x in ast.walk(e)))
+        # path by path (flag locals such as `want_all = args["all"]` expanded): on every path on which --all is not
+        # known to be off, a merge precedes each of those reads
+        from . import paths as _PTJ
+
+        jex = Expander(fn)
+        try:
+            jpl = _PTJ.enumerate_paths(fn, None, jex, max_paths=20000)
+        except AnalysisError as e:
+            jpl = None
+            rep.note(f"J-R1 undecided: {fname}: {e}")
+        if jpl is None:
+            continue
+        jpc = jpl.cfg
+        is_read = lambda n: any(isinstance(x, ast.Subscript) and text(x.value) == "args" and (text(x.slice).strip("'\"") in want_keys or isinstance(x.slice, ast.Name)) for e in n.exprs() for x in ast.walk(e)) and not any(isinstance(x, ast.Subscript) and text(x.slice).strip("'\"") in ("all",) for e in n.exprs() for x in ast.walk(e))
+        is_client = lambda n: isinstance(n.stmt, (ast.Assign, ast.AnnAssign)) and n.kind in ("assign", "annassign") and isinstance(n.stmt.value, ast.Call) and text(n.stmt.value.func) == "init_client" and text(n.stmt.targets[0] if isinstance(n.stmt, ast.Assign) else n.stmt.target) in senders
+        jreads = {n.id for n in jpc.nodes if n.stmt is not None and n.kind not in ("join", "handlers") and (is_read(n) or is_client(n))}
+        jmerges = {n.id for n in jpc.nodes if n.stmt is not None and n.kind not in ("join", "handlers") and any(text(c.func) == "_merge_acctinfo" for c in n.calls())}
+        all_off = _PTJ.Cond("not", [_PTJ.cond_of(ast.parse("args['all']", mode="eval").body, jex.x)])
+        ok = bool(jmerges)
+        for q in jpl:
+            if _PTJ.implies(q.conds, all_off) is True:
+                continue
+            mpos = [i for i, nid in enumerate(q.nodes) if nid in jmerges]
+            for i, nid in enumerate(q.nodes):
+                if nid in jreads and not (mpos and mpos[0] < i):
+                    # reads that happen on a path which never merges are fine only if --all is off there
+                    ok = False
         rep.check("J-R1", f"{fname}:--all-merges-before-reading-accounts", ok, "" if ok else "with --all the account lists (or the bank / broker id the sending client is built with) are read before the discovered accounts are merged in", gloc(p, fn))
 
     rep.rule("J-R2", "discovered accounts: every account id taken from the account-information response is collected only under _acctIsActive, which is exactly `svcstatus == 'ACTIVE'` (a member of SVCSTATUSES); the dispatcher's keys are *ACCTINFO classes that ACCTINFO can contain; the grouped records are sorted by the group key first; bank accounts are filed under their own account type")
